@@ -1167,6 +1167,9 @@ void process_io () {
           if (evt->event_type & EVENT_READ)
             {
               get_user_data (ip, evt);
+              /* ip itself is freed if get_user_data() removed the interactive (EOF, error, LPC callback) */
+              if (!is_interactive_user (ip))
+                continue;
               /* ip->ob may be invalid after get_user_data if object was destructed */
               if (!ip->ob || (ip->ob->flags & O_DESTRUCTED) || ip->ob->interactive != ip)
                 {
